@@ -32,6 +32,13 @@ ALSO = {
     "C18-r4m3": ["C18", "C08"],
     "C06-r4m3": ["C06", "C20"],
     "C06-r5m2": ["C06", "C20"],
+    # round 6: a byte offset measured on one line cuts another (a panic on multi-byte indentation): filed under C10 (jsdoc dedent)
+    # and C18 (diagnostic rendering), both are panics on input text, which is C08's subject
+    "C10-r6m1": ["C10", "C08"],
+    "C18-r6m2": ["C18", "C08"],
+    # a duplicate definition in another file at the same line/column is silently dropped: filed under C17 (order dependence),
+    # the dropped duplicate error is C11's subject (the same family as C11-r6m3)
+    "C17-r6m1": ["C17", "C11"],
 }
 
 
